@@ -19,7 +19,19 @@ package c19
 //   - GreyDup: the same HOST appears in two entries (buf rejects; "the first configured source wins"
 //     would also be fine). What is never fine is a later entry winning.
 //
-// Until round 3 a second zone was open: a TOKEN of a TOKEN@HOST entry containing `:` ("GreyColon":
+// Round 4 - host names that differ only in letter case (`R.io` / `r.io`). The model's answer is the exact
+// one (Lookup: the first entry whose host is byte-equal to the request host). Host names are case-insensitive
+// in DNS, so the property does not decide whether `tok@R.io` applies to `r.io`; that is a second open zone,
+// kept as narrow as "the first configured source wins deterministically" allows:
+//   - FoldDup: two entries whose hosts are equal under ASCII case folding but not byte-equal. buf may reject
+//     the string (a case-insensitive duplicate check) or accept it.
+//   - Tolerates: besides the exact answer, the token of the FIRST entry whose host equals the request host
+//     under case folding is accepted (that is what a consistently case-insensitive reading with "first
+//     wins" would send). Anything else is a violation: a LATER case variant winning over an exact or an
+//     earlier folded entry, a token of an unrelated host, and - judged across lookups and across map
+//     iteration seeds - an answer that is not always the same one (Ambiguous lookups are compared).
+//
+// Until round 3 a further zone was open: a TOKEN of a TOKEN@HOST entry containing `:` ("GreyColon":
 // rejecting and accepting with exactly the written binding were both tolerated). It is closed now: the
 // property's quantifier names `:` next to `@` and `,` as a SEPARATOR of the BUF_TOKEN language, and the
 // property demands that a malformed string is rejected as a whole; a token part that contains a separator
@@ -60,11 +72,78 @@ type Config struct {
 	Token     string    // KSingle
 	Bindings  []Binding // KMap, in sentence order (duplicates kept: first wins)
 	GreyDup   bool      // some host occurs twice
+	FoldDup   bool      // two hosts are equal under case folding but not byte-equal (round 4)
 	Malformed string    // KReject: structural class of the first malformed entry
 }
 
 // Grey reports whether the implementation may also reject this (otherwise well-formed) string.
-func (c Config) Grey() bool { return c.GreyDup }
+func (c Config) Grey() bool { return c.GreyDup || c.FoldDup }
+
+// foldASCII lower-cases the ASCII letters of s (the model's notion of "equal up to letter case").
+func foldASCII(s string) string {
+	for i := 0; i < len(s); i++ {
+		if 'A' <= s[i] && s[i] <= 'Z' {
+			b := []byte(s)
+			for j := i; j < len(b); j++ {
+				if 'A' <= b[j] && b[j] <= 'Z' {
+					b[j] += 'a' - 'A'
+				}
+			}
+			return string(b)
+		}
+	}
+	return s
+}
+
+// swapCaseASCII toggles the case of every ASCII letter (all=true) or of the first letter only.
+func swapCaseASCII(s string, all bool) string {
+	b := []byte(s)
+	for i := range b {
+		switch {
+		case 'a' <= b[i] && b[i] <= 'z':
+			b[i] -= 'a' - 'A'
+		case 'A' <= b[i] && b[i] <= 'Z':
+			b[i] += 'a' - 'A'
+		default:
+			continue
+		}
+		if !all {
+			break
+		}
+	}
+	return string(b)
+}
+
+// FoldFirst returns the token of the first entry whose host equals q under case folding.
+func (c Config) FoldFirst(q string) (string, bool) {
+	if c.Kind != KMap {
+		return "", false
+	}
+	fq := foldASCII(q)
+	for _, b := range c.Bindings {
+		if b.Host == q || foldASCII(b.Host) == fq {
+			return b.Token, true
+		}
+	}
+	return "", false
+}
+
+// Tolerates reports whether got is an acceptable answer for host q: the exact answer, or (open zone, see
+// the file comment) the token of the first entry that matches q under case folding.
+func (c Config) Tolerates(q, got string) bool {
+	if got == c.Lookup(q) {
+		return true
+	}
+	t, ok := c.FoldFirst(q)
+	return ok && got == t
+}
+
+// Ambiguous reports whether Tolerates accepts two different answers for q; such lookups must give the
+// same answer every time (repeated calls, every map iteration seed).
+func (c Config) Ambiguous(q string) bool {
+	t, ok := c.FoldFirst(q)
+	return ok && t != c.Lookup(q)
+}
 
 // Lookup returns the token the model sends to host q ("" = no Authorization header).
 func (c Config) Lookup(q string) string {
@@ -116,6 +195,9 @@ func (c Config) Canon() string {
 	if c.GreyDup {
 		s += "+dup"
 	}
+	if c.FoldDup {
+		s += "+casedup"
+	}
 	return s
 }
 
@@ -135,6 +217,7 @@ func Parse(s string) Config {
 	}
 	cfg := Config{Kind: KMap}
 	seen := map[string]bool{}
+	seenFold := map[string]string{}
 	var tok, host []byte
 	ats := 0
 	bad := ""
@@ -161,6 +244,11 @@ func Parse(s string) Config {
 				cfg.GreyDup = true
 			}
 			seen[h] = true
+			if first, ok := seenFold[foldASCII(h)]; !ok {
+				seenFold[foldASCII(h)] = h
+			} else if first != h {
+				cfg.FoldDup = true
+			}
 			cfg.Bindings = append(cfg.Bindings, Binding{Host: h, Token: t})
 		}
 		tok, host, ats = tok[:0], host[:0], 0
@@ -245,11 +333,16 @@ func Sentences(syms []string, maxSyms int) map[string]Config {
 		if len(bs) > 0 {
 			cfg := Config{Kind: KMap, Bindings: append([]Binding(nil), bs...)}
 			seen := map[string]bool{}
-			for _, b := range bs {
+			for i, b := range bs {
 				if seen[b.Host] {
 					cfg.GreyDup = true
 				}
 				seen[b.Host] = true
+				for _, a := range bs[:i] {
+					if a.Host != b.Host && strings.EqualFold(a.Host, b.Host) {
+						cfg.FoldDup = true
+					}
+				}
 			}
 			out[prefix] = cfg
 			left-- // the joining comma
@@ -267,7 +360,7 @@ func Sentences(syms []string, maxSyms int) map[string]Config {
 
 // SameConfig compares two model configurations structurally.
 func SameConfig(a, b Config) bool {
-	if a.Kind != b.Kind || a.Token != b.Token || a.GreyDup != b.GreyDup || len(a.Bindings) != len(b.Bindings) {
+	if a.Kind != b.Kind || a.Token != b.Token || a.GreyDup != b.GreyDup || a.FoldDup != b.FoldDup || len(a.Bindings) != len(b.Bindings) {
 		return false
 	}
 	for i := range a.Bindings {
